@@ -417,9 +417,24 @@ fn run(args: &Args) {
     }
 
     // ---- D. seed searches for the two regions the proof of the legacy loop excludes
+    // D1-directed: WyRand (fastrand) outputs 0 when `seed + 0x2d358dccaa6c78a5` is 0 or equals the
+    // second WyRand constant, so these two seeds make the first `rng.f32()` exactly 0.0 with every
+    // fastrand 2.x (23-bit draws in 2.3.0 as well as 63-bit draws in 2.5.0).
+    for s in [
+        0u64.wrapping_sub(0x2d35_8dcc_aa6c_78a5),
+        0x8bb8_4b93_962e_acc9u64.wrapping_sub(0x2d35_8dcc_aa6c_78a5),
+    ] {
+        let draw = fastrand::Rng::with_seed(s).f32();
+        out.note(&format!("directed seed {s}: first rng.f32() = {draw}"));
+        ms_sequence(&mut out, s, &[(vec![NEG_INF, 0.0], None)], "multinomial_directed_draw_zero");
+        ms_sequence(&mut out, s, &[(vec![NEG_INF, NEG_INF, 1.0, 2.0], Some(vec![17, 3, 9, 4]))], "multinomial_directed_draw_zero");
+        let mut rng0 = fastrand::Rng::with_seed(s);
+        let _ = rng0; // (the private loop is exercised through `mn_case` with the same seed)
+        mn_case(&mut out, s, &[0.0, 0.25, 0.75]);
+    }
     // D1: a seed whose first draw is exactly 0.0, with logits [-inf, 0]
     let start = rng.next_u64();
-    let budget: u64 = if thorough { 400_000_000 } else { 100_000_000 };
+    let budget: u64 = if thorough { 200_000_000 } else { 30_000_000 };
     let mut found0 = None;
     for i in 0..budget {
         let s = start.wrapping_add(i);
